@@ -56,6 +56,9 @@ def gen_history(ctx, hid, sc, nops):
         if op == "read" and nexth < 60:
             kind = rng.choice(["dna", "protein", "rna"])
             recs = gen.family(rng, kind, rng.randint(2, 9), rng.choice([8, 40, 120, 520]), sub=0.15, indel=0.06)
+            if rng.random() < 0.12:
+                # the k-means guide-tree path (>= 100 sequences) has allocations of its own
+                recs = gen.family(rng, kind, rng.choice([100, 130, 180, 260]), rng.choice([25, 50]), sub=0.25, indel=0.08, spice=False)
             mode = rng.random()
             if mode < 0.15:
                 recs[rng.randrange(len(recs))] = (recs[0][0] + "z", "")        # zero-length record
@@ -184,6 +187,35 @@ def run(ctx):
 
     with ThreadPoolExecutor(min(C.NCPU, 8)) as ex:
         results = list(ex.map(run_hist, hists))
+    # allocation ledger by counting (LeakSanitizer's conservative scan can miss blocks): in the build without sanitizers, repeat each
+    # complete history (all handles freed at its end) in one process; after a warm-up round the heap in use must not grow
+    kvp = C.build_harness("noomp")     # no OpenMP runtime: its thread pool / team caches are excluded by the property and would blur the count
+
+    def ledger(H):
+        ops = [l for l, hs, o in H.ops]
+        lines = ops + ["memuse"] + ops + ["memuse"] + ops + ["memuse"] + ops + ["memuse"]
+        rc, out, err = C.run_lines(kvp, lines, env={}, timeout=1800)
+        for l, hs, o in H.ops:
+            if o and os.path.exists(o):
+                os.remove(o)
+        n = len(ops)
+        vals = [out[(n + 1) * k + n] if len(out) > (n + 1) * k + n else None for k in range(4)]
+        return H, vals
+
+    # plus short histories on inputs large enough for the bisecting k-means path (>= 100 sequences), whose allocations the
+    # small histories never reach
+    khists = []
+    for i in range(10 if ctx.quick else 80):
+        H = Hist(1000 + i, sc)
+        kind = ctx.rng.choice(["protein", "dna", "rna"])
+        recs = gen.family(ctx.rng, kind, ctx.rng.choice([100, 130, 180, 260]), ctx.rng.choice([25, 50, 100]), sub=ctx.rng.choice([0.1, 0.25]), indel=0.08, spice=False)
+        f = H.newfile(gen.fasta_text(recs))
+        out = H.newfile(None, "out")
+        H.ops = [("h_read 0 %s" % f, [0], None), ("h_run 0 5 -1 -1 -1 %d" % ctx.rng.choice([1, 4]), [0], None),
+                 ("h_write 0 %s %s" % (out, ctx.rng.choice(["fasta", "msf", "clu"])), [0], out), ("h_free 0", [0], None)]
+        khists.append(H)
+    with ThreadPoolExecutor(min(C.NCPU, 8)) as ex:
+        ledgers = list(ex.map(ledger, hists + khists))
     for res in results:
         H = res["H"]
         rc, out, err = res["full"]
@@ -217,6 +249,18 @@ def run(ctx):
             ctx.count("op_" + l.split()[0])
         if len(ctx.samples) < 2:
             ctx.sample(dict(history=[l[:160] for l, _, _ in H.ops[:12]], outputs=out[:12]))
+    for H, vals in ledgers:
+        ctx.evaluations += 1
+        try:
+            v = [int(x) for x in vals]
+        except (TypeError, ValueError):
+            ctx.count("ledger_unavailable")
+            continue
+        ctx.count("ledger_histories")
+        # rounds 2,3,4 (after warm-up): growth in every round = memory that stays allocated after all objects were freed
+        if v[2] > v[1] and v[3] > v[2]:
+            fails.append(("the number of live heap blocks grows by %d and %d per repetition of a complete history although every object was freed" % (v[2] - v[1], v[3] - v[2]),
+                          dict(history=[l[:300] for l, _, _ in H.ops], heap_in_use_after_each_round=v)))
     for why, rep in fails[:5]:
         ctx.violation(why, dict(kind="oracle", detail=rep))
     if not ok and not fails:
